@@ -265,6 +265,12 @@ func checkC01(P *Prog, r *Result) {
 	// field-binding: each field's schema is applied to the destination field of that name (C03's rule): a
 	// constraint checked against another field's value lets an invalid field pass
 	shareRule(P, r, checkC03, "C03/struct-writes-by-field", nil, "C01/field-binding", 2)
+	// every element present when the children run is visited: the bound of an element loop is a length read
+	// after the last write to the value it measures
+	P.checkElementLoopBound(r)
+	// a schema's tests are not overwritten through a backing array shared with a schema derived from it
+	// (C16's rule: the second `base.Merge(y)` would replace the test the first merge stored)
+	shareRule(P, r, checkC16, "C16/no-shared-backing", nil, "C01/tests-not-overwritten", 4)
 	r.Extra["schema_ctx_constructors"] = len(ca.ctors)
 	if len(ca.ctors) < 2 {
 		r.broken("vacuous: %d SchemaCtx constructors recognised (floor 2)", len(ca.ctors))
@@ -1380,6 +1386,74 @@ func collectThenSort(l rangeLoop, ph *ssa.Phi) bool {
 		}
 	}
 	return true
+}
+
+// checkElementLoopBound: in every loop of a node function (or a helper of it)
+// that dispatches to a child per index, the bound `i < n` is a Len() of a
+// reflect.Value that is not written between that Len() call and the loop: a
+// length read before a default / coerced value is stored (`n := v.Len()` hoisted
+// above `v.Set(default)`) leaves the new elements unvisited and untested.
+func (P *Prog) checkElementLoopBound(r *Result) {
+	ca := P.sharedCatchAnalysis()
+	n := 0
+	for _, nf := range P.nodeFuncs() {
+		k := 0
+		for _, u := range P.nodeUnits(nf) {
+			fn := u.fn
+			for _, l := range naturalLoops(fn) {
+				dispatches := false
+				for b := range l.body {
+					for _, in := range b.Instrs {
+						if _, isD := ca.dispatchCallee(callOf(in)); isD {
+							dispatches = true
+						}
+					}
+				}
+				iff, ok := l.header.Instrs[len(l.header.Instrs)-1].(*ssa.If)
+				if !dispatches || !ok {
+					continue
+				}
+				bo, ok := iff.Cond.(*ssa.BinOp)
+				if !ok || bo.Op != token.LSS {
+					continue
+				}
+				lc, ok := cv(bo.Y).(*ssa.Call)
+				if !ok {
+					continue
+				}
+				ci := callOf(lc)
+				if ci.static == nil || !isPkgFunc(ci.static, "reflect") || ci.static.Name() != "Len" {
+					continue
+				}
+				n++
+				k++
+				c := fmt.Sprintf("%s#element-loop@%d", fname(nf), k)
+				measured := cv(lc.Call.Args[0])
+				bad := ""
+				if !l.body[lc.Block()] {
+					// hoisted: no write to the measured value may lie between the read and the loop
+					for _, w := range P.writeSites(fn) {
+						if !w.viaReflect || cv(w.target) != measured {
+							continue
+						}
+						wb := w.in.Block()
+						afterLen := wb == lc.Block() && instrIndex(w.in) > instrIndex(lc) || wb != lc.Block() && reachFromSuccs(lc.Block(), nil)[wb]
+						beforeLoop := wb == l.header || reachFromSuccs(wb, nil)[l.header]
+						if afterLen && beforeLoop && !l.body[wb] {
+							bad = fmt.Sprintf("the loop runs to a length read at %s, but the value is replaced at %s (%s) before the loop: the elements stored there are never handed to the child schema", P.ipos(lc), P.ipos(w.in), w.what)
+						}
+					}
+				}
+				if bad != "" {
+					r.bad("C01/element-loop-bound", c, P.ipos(iff), bad)
+				} else {
+					r.ok("C01/element-loop-bound", c, P.ipos(iff), "bound is the length of the iterated value, read after its last write")
+				}
+			}
+		}
+	}
+	r.floor("C01/element-loop-bound", 1)
+	_ = n
 }
 
 // collectThenKeyUse recognises the other order-insensitive accumulation: keys
